@@ -379,7 +379,7 @@ use rustun_verif_harness::zoo;
 
 const RT_USER: &str = "rt-user";
 const RT_REALM: &str = "rt.example.org";
-const RT_PASSWORD: &str = "rt pässword";
+const RT_PASSWORD: &str = "rt\u{00A0}pässw\u{2003}rd";
 
 pub struct RtKey {
     pub name: &'static str,
